@@ -114,6 +114,37 @@ Theorem C08_roundtrip_full_challenge : forall SN TX snap_body snap_signed tx_bod
 Proof. exact roundtrip_full_challenge. Qed.
 Print Assumptions C08_roundtrip_full_challenge.
 
+(* pre-commitment lists of 1..1024 valid points (an empty list is refuted below) *)
+Theorem C08_roundtrip_commitments : forall SN TX snap_body snap_signed tx_body check_key v sig keys m,
+  len sig = sig_size -> 1 <= len keys ->
+  Forall (fun k => len k = 32 /\ check_key k = true) keys ->
+  build_commitments sig keys = Ok m ->
+  parse_msg SN TX snap_body snap_signed tx_body check_key v m =
+  Ok (v, MPreCommitments sig keys (be_bytes 2 (len keys) ++ concat keys)).
+Proof. exact roundtrip_commitments. Qed.
+Print Assumptions C08_roundtrip_commitments.
+
+Theorem C08_roundtrip_commitment : forall SN TX snap_body snap_signed tx_body check_key v sig h R wants,
+  len sig = sig_size -> len h = hash_size -> len R = key_size -> check_key R = true ->
+  Forall (fun w => len w = 32) wants ->
+  parse_msg SN TX snap_body snap_signed tx_body check_key v (build_commitment sig h R wants) =
+  Ok (v, MCommitment sig h R wants (h ++ R ++ concat wants)).
+Proof. exact roundtrip_commitment. Qed.
+Print Assumptions C08_roundtrip_commitment.
+
+(* graph (sync points): node and hash of 32 bytes, round number below 2^64; up to 65535 points *)
+Theorem C08_sync_points_roundtrip : forall ps d, Forall point_wf ps ->
+  marshal_sync_points ps = Ok d -> unmarshal_sync_points d = Ok ps.
+Proof. exact sync_points_roundtrip. Qed.
+Print Assumptions C08_sync_points_roundtrip.
+
+Theorem C08_roundtrip_graph : forall SN TX snap_body snap_signed tx_body check_key v sig ps m d,
+  len sig = sig_size -> Forall point_wf ps ->
+  marshal_sync_points ps = Ok d -> build_graph sig ps = Ok m ->
+  parse_msg SN TX snap_body snap_signed tx_body check_key v m = Ok (v, MGraph sig ps d).
+Proof. exact roundtrip_graph. Qed.
+Print Assumptions C08_roundtrip_graph.
+
 Theorem C08_payload_roundtrip : forall TX tx_body txs ts pl,
   Forall2 (fun b t => tx_dec TX tx_body b = Some t) txs ts ->
   build_txs_payload txs = Ok pl -> parse_txs_payload TX tx_body pl = Ok ts.
@@ -130,7 +161,7 @@ Definition ex_snap : bytes := Consts.P2P_SnapshotEncodingHeader ++ repeat 1%N 16
 Example C08_ex_bundle :
   exists m, build_transactions [[1;2;3]%N; []; [4]%N] (ty Consts.P2P_TypeTransactionBundle) = Ok m /\
     ex_parse 2%N m = Ok (2%N, MBundle Consts.P2P_TypeTransactionBundle [[1;2;3]%N; []; [4]%N]).
-Proof. eexists; split; vm_compute; reflexivity. Qed.
+Proof. eexists; split; [vm_compute; reflexivity|]. vm_compute. reflexivity. Qed.
 
 Example C08_ex_announcement :
   ex_parse 2%N (build_announcement ex_sig ex_key ex_snap) = Ok (2%N, MAnnouncement ex_sig ex_key ex_snap)
@@ -140,7 +171,7 @@ Proof. split; vm_compute; reflexivity. Qed.
 (* refuted: an empty pre-commitments list (67 bytes) is below the 80-byte minimum *)
 Example C08_roundtrip_commitments_empty_refuted :
   exists m, build_commitments ex_sig [] = Ok m /\ ex_parse 2%N m = Err.
-Proof. eexists; split; vm_compute; reflexivity. Qed.
+Proof. eexists; split; [vm_compute; reflexivity|]. vm_compute. reflexivity. Qed.
 
 Example C08_ex_commitments :
   exists m, build_commitments ex_sig [ex_key; ex_key] = Ok m /\
@@ -155,7 +186,12 @@ Proof. eexists; split; [vm_compute; reflexivity|]. split; vm_compute; reflexivit
 Example C08_ex_full_challenge :
   exists m, build_full_challenge ex_snap ex_key ex_key [repeat 5%N 40] = Ok m /\
     ex_parse 2%N m = Ok (2%N, MFullChallenge ex_snap ex_key ex_key [repeat 5%N 40]).
-Proof. eexists; split; vm_compute; reflexivity. Qed.
+Proof. eexists; split; [vm_compute; reflexivity|]. vm_compute. reflexivity. Qed.
+
+Example C08_ex_graph :
+  exists m, build_graph ex_sig [mk_point ex_key 77 ex_key] = Ok m /\
+    exists u, ex_parse 2%N m = Ok (2%N, MGraph ex_sig [mk_point ex_key 77 ex_key] u).
+Proof. eexists; split; [vm_compute; reflexivity|]. eexists. vm_compute. reflexivity. Qed.
 
 Example C08_ex_short_inputs :
   ex_parse 2%N [] = Err /\ ex_parse 2%N [15]%N = Err /\ ex_parse 2%N [24;0;0;0;200]%N = Err
